@@ -21,7 +21,7 @@ ASSERTS_CMP = ["lt", "le", "eq", "ne", "gt", "ge"]
 
 DEFAULT_WEIGHTS = {
     # statement kinds
-    "let": 10, "assert": 3, "guarded": 3, "ite_call": 0, "set_ie": 0.4, "val": 1,
+    "let": 10, "assert": 3, "guarded": 3, "ite_call": 0, "set_ie": 0.4, "val": 1, "set_res": 0, "set_bl": 0,
     "array": 0, "aset": 0, "block_if": 0, "block_while": 0, "block_for": 0,
     "snark": 0,
     # expression families (for let)
@@ -316,6 +316,8 @@ class Gen:
         kinds = ["let", "assert", "val", "array", "aset", "snark"]
         if self.depth == 0 or not self.cfg.get("set_ie_top_only"):
             kinds.append("set_ie")
+        if self.depth == 0:
+            kinds += ["set_res", "set_bl"]
         if self.depth < self.max_depth:
             kinds += ["guarded", "ite_call", "block_if", "block_while", "block_for"]
         k = self.pick(kinds) or "let"
@@ -337,9 +339,20 @@ class Gen:
     def mk_set_ie(self):
         return {"s": "set_ie", "value": self.r.random() < 0.6}
 
+    def mk_set_res(self):
+        return {"s": "set_res", "value": self.r.choice([0, 1, 2, 3, 4, 8])}
+
+    def mk_set_bl(self):
+        self.b = self.r.choice([3, 4, 5, 6, 8])
+        return {"s": "set_bl", "value": self.b}
+
     def mk_guarded(self):
         cond = self.cond_expr()
-        return {"s": "guarded", "cond": cond, "body": self.scoped_body(3)}
+        st = {"s": "guarded", "cond": cond}
+        if self.depth >= 1 and self.r.random() < 0.2:
+            st["reuse_outer"] = True      # nested region entered through the enclosing region's decorator object
+        st["body"] = self.scoped_body(3)
+        return st
 
     def mk_ite_call(self):
         cond = self.operand("B", 0)
@@ -428,6 +441,7 @@ class CodeGen:
         self.region_ids = []  # stack of (rid, branch) of the enclosing regions
         self.var_site = {}    # (variable name, region stack) -> site of the statement that defines it
         self.origin_r = {}    # (variable name, region stack) -> description of that statement
+        self.deco_stack = []  # decorator objects (variable name, condition variable) of the enclosing guarded regions
         self.api_lines = {}   # source line number -> block nesting depth of a block-API call
         self.block_depth = 0
         self.fn = 0
@@ -598,6 +612,18 @@ class CodeGen:
         self.emit("__set_ie__(%r)" % bool(s["value"]))
         self.step({"kind": "set_ie"})
 
+    def st_checkpoint_prove(self, s):
+        self.emit("__prove__()")
+        self.step({"kind": "checkpoint_prove"})
+
+    def st_set_res(self, s):
+        self.emit("__set_res__(%d)" % s["value"])
+        self.step({"kind": "set_res"})
+
+    def st_set_bl(self, s):
+        self.emit("__set_bl__(%d)" % s["value"])
+        self.step({"kind": "set_bl"})
+
     def region_body(self, body, fname, ret=None):
         """def fname(): body; return ret"""
         self.emit("def %s():" % fname)
@@ -621,12 +647,24 @@ class CodeGen:
         # condition evaluated outside the region
         csrc = self.ex(s["cond"])
 
+        reuse = s.get("reuse_outer") and self.deco_stack and self.deco_stack[-1] is not None
+        gnm = "_g%d" % rid
+
         def body():
-            self.emit("%s = %s" % (cnm, csrc))
+            if reuse:
+                # the enclosing region's decorator object (and condition) is applied again
+                outer_g, outer_c = self.deco_stack[-1]
+                self.emit("%s = %s" % (cnm, outer_c))
+            else:
+                self.emit("%s = %s" % (cnm, csrc))
             self.emit("%s = [__cv__(%s)]" % (mnm, cnm))
+            if self.mode != "unguarded":
+                self.emit("%s = %s" % (gnm, outer_g if reuse else "guarded(%s)" % cnm))
             self.regions.append(mnm)
             self.region_ids.append((rid, "t"))
+            self.deco_stack.append((gnm, cnm))
             self.region_body(s["body"], fname)
+            self.deco_stack.pop()
             self.region_ids.pop()
             self.regions.pop()
             self.emit("__enter__(%d)" % rid)
@@ -635,7 +673,7 @@ class CodeGen:
             if self.mode == "unguarded":
                 self.emit("if __cv__(%s) == 1: %s()" % (cnm, fname))
             else:
-                self.emit("guarded(%s)(%s)()" % (cnm, fname))
+                self.emit("%s(%s)()" % (gnm, fname))
             self.ind -= 1
             self.emit("finally:")
             self.ind += 1
@@ -660,12 +698,14 @@ class CodeGen:
             self.emit("%s = [1 - __cv__(%s)]" % (mf, cnm))
             self.regions.append(mt)
             self.region_ids.append((rid, "t"))
+            self.deco_stack.append(None)
             self.region_body(s["true"], ft, s["tret"])
             self.region_ids.pop()
             self.regions.pop()
             self.regions.append(mf)
             self.region_ids.append((rid, "f"))
             self.region_body(s["false"], ff, s["fret"])
+            self.deco_stack.pop()
             self.region_ids.pop()
             self.regions.pop()
             self.emit("__enter__(%d)" % rid)
@@ -857,12 +897,17 @@ class CodeGen:
         rid = self.rid
         s_lv = s["lv"]
         def body():
+            rv = s.get("range_var")
             if native:
                 self.emit("_broke%d = False" % self.rid)
-                self.emit("for %s in range(min(%s, %d)):" % (s_lv, self.bx(s["stop"]), s["max"]))
+                if rv and s.get("range_def"):
+                    self.emit("%s = range(min(%s, %d))" % (rv, self.bx(s["stop"]), s["max"]))
+                self.emit("for %s in %s:" % (s_lv, rv if rv else "range(min(%s, %d))" % (self.bx(s["stop"]), s["max"])))
             else:
-                self.emit("for %s in _range(%s, max=%d, checkstopmax=%r):" % (
-                    s_lv, self.bx(s["stop"]), s["max"], bool(s.get("checkstopmax"))))
+                rsrc = "_range(%s, max=%d, checkstopmax=%r)" % (self.bx(s["stop"]), s["max"], bool(s.get("checkstopmax")))
+                if rv and s.get("range_def"):
+                    self.emit("%s = %s" % (rv, rsrc))
+                self.emit("for %s in %s:" % (s_lv, rv if rv else rsrc))
             self.ind += 1
             self.block_depth += 1
             pos = s.get("break_pos", len(s["body"]))
